@@ -1070,6 +1070,27 @@ fn gen_workload(rng: &mut Rng, _head: &str, idx: usize) -> (Vec<Op>, Vec<String>
                     ops.push(Op::Vacuum);
                     continue;
                 }
+                "mixed_txn" => {
+                    // once per workload: a committing session whose second statement fails after having rewritten rows
+                    sess += 1;
+                    ops.push(Op::SBegin(sess));
+                    let mut last = 0;
+                    for _ in 0..2 {
+                        let id = next_id[&t];
+                        *next_id.get_mut(&t).unwrap() += 1;
+                        ops.push(Op::SDml(sess, Dml::Ins(t.clone(), id, rng.range(0, 99))));
+                        live.get_mut(&t).unwrap().push(id);
+                        last = id;
+                    }
+                    ops.push(Op::SDml(sess, Dml::UpdFail(t.clone(), last)));
+                    let id = next_id[&t];
+                    *next_id.get_mut(&t).unwrap() += 1;
+                    ops.push(Op::SDml(sess, Dml::Ins(t.clone(), id, rng.range(0, 99))));
+                    live.get_mut(&t).unwrap().push(id);
+                    ops.push(Op::SCommit(sess));
+                    tags.push("session_failed_multirow_update".into());
+                    continue;
+                }
                 "overflow" => {
                     // free the overflow chains of the rows deleted so far, so that later rows re-use their pages
                     for _ in 0..2 {
@@ -1138,7 +1159,7 @@ fn gen_workload(rng: &mut Rng, _head: &str, idx: usize) -> (Vec<Op>, Vec<String>
                     ops.push(Op::SDml(sess, Dml::Ins(t.clone(), id, if indexed { uniq_v(&t, id) } else { rng.range(0, 99) })));
                     live.get_mut(&t).unwrap().push(id);
                 }
-                if family == "mixed_txn" && live[&t].len() >= 2 && rng.chance(1, 2) {
+                if family == "mixed_txn" && live[&t].len() >= 2 {
                     // a statement that fails on its last row after having rewritten the rows before it; the transaction goes on
                     let last = *live[&t].iter().max().unwrap();
                     ops.push(Op::SDml(sess, Dml::UpdFail(t.clone(), last)));
